@@ -66,6 +66,54 @@ class C13Executor(SymListMixin, ET.ETreeMixin, Executor):
     def join_term(self, sep, s):
         return VStr(JOIN(sep.t, s))
 
+    # ---- memo caches keyed by id(): a hit returns what a recomputation returns (purity of the memoised function and
+    # immutability of the tree while the extractor runs are ASSUMED), so every lookup is modelled as a miss
+    def contains(self, st, container, item, node):
+        if isinstance(container, VExt) and container.sort == "MemoCache":
+            return [(st, VBool(False))]
+        return super().contains(st, container, item, node)
+
+    def store_index(self, st, base, idx, v, node):
+        if isinstance(base, VExt) and base.sort == "MemoCache":
+            return [st]
+        return super().store_index(st, base, idx, v, node)
+
+    def e_DictComp(self, n, st):
+        """a dict comprehension whose keys are symbolic yields an unknown dict (sound: nothing is assumed about it)"""
+        def elt(s, acc):
+            res = []
+            for (s2, k) in self.ev(n.key, s):
+                for (s3, v) in self.ev(n.value, s2):
+                    res.append((s3, acc + [(k, v)]))
+            return res
+        out = []
+        for (s, acc) in self.comp(n, st, elt):
+            d, sym = {}, False
+            for k, v in acc:
+                c = self.py_const(k)
+                if type(c).__name__ == "_NCType":
+                    sym = True
+                    break
+                d[c] = v
+            out.append((s, VRef(s.alloc(HeapObj("unk", None) if sym else HeapObj("dict", d), self.refs))))
+        return out
+
+    def construct(self, st, t, args, kwargs, node):
+        if t.name == "float" and len(args) == 1 and isinstance(args[0], VStr) and args[0].const() is not None:
+            # float("<literal>"): exact value of the decimal literal (PY-FLOAT-REAL), ValueError when it is not a number
+            from fractions import Fraction
+            try:
+                float(args[0].const())
+                fr = Fraction(args[0].const().strip())
+            except ValueError:
+                self.raise_in(st, self.mk_exc("ValueError"))
+                return []
+            return [(st, VReal(z3.RealVal(f"{fr.numerator}/{fr.denominator}")))]
+        return super().construct(st, t, args, kwargs, node)
+
+    def b_super(self, st, args, kwargs, node):
+        return [(st, VExt("SuperProxy"))]
+
     def dataclass_fields(self, name):
         """dataclasses imported from data_types.py are constructed like local ones"""
         r = super().dataclass_fields(name)
